@@ -44,6 +44,21 @@ class NPProxy:
         return SB(zabs(d.e) <= atol + rtol * zabs(b.e))
 
     @staticmethod
+    def allclose(a, b, rtol=1e-5, atol=1e-8):
+        """numpy.allclose = all(isclose) element by element (forks on symbolic entries)."""
+        if getattr(b, '_never_equal', False) or getattr(a, '_never_equal', False):
+            return False
+        a_, b_ = _np.asarray(a, dtype=object).ravel(), _np.asarray(b, dtype=object).ravel()
+        if not any(_issym(x) for x in list(a_) + list(b_)):
+            return _np.allclose(a, b, rtol=rtol, atol=atol)
+        if len(b_) == 1 and len(a_) > 1:
+            b_ = [b_[0]] * len(a_)
+        for x, y in zip(a_, b_):
+            if not NPProxy.isclose(x, y, rtol=rtol, atol=atol):
+                return False
+        return True
+
+    @staticmethod
     def clip(x, lo, hi):
         if not _issym(x):
             return _np.clip(x, lo, hi)
